@@ -1,6 +1,7 @@
 from __future__ import annotations
 
 import logging
+import math
 
 import claripy
 
@@ -19,7 +20,15 @@ class ConstraintExpansionMixin:
         # add constraints to help the solver out later
         # TODO: does this really help?
         if len(extra_constraints) == 0 and len(results) < n:
-            self.add([claripy.Or(*[e == v for v in results])], invalidate_cache=False)
+            # a NaN result is not "equal" to anything, not even to itself: state it as fpIsNaN
+            self.add(
+                [
+                    claripy.Or(
+                        *[claripy.fpIsNaN(e) if isinstance(v, float) and math.isnan(v) else e == v for v in results]
+                    )
+                ],
+                invalidate_cache=False,
+            )
 
         return results
 
